@@ -138,10 +138,11 @@ pub enum Op {
     WalkStorage(String),
     SetClsid(String, [u8; 16]),
     SetState(String, u32),
-    /// Ticks the library is expected to store (the caller converts the SystemTime with
-    /// the independent oracle).
-    SetCreated(String, u64),
-    SetModified(String, u64),
+    /// Time as nanoseconds relative to the Unix epoch (may be off the 100 ns grid and
+    /// outside the tick range); the model derives the stored ticks with the
+    /// independent oracle `ticks_from_unix_ns`.
+    SetCreated(String, i128),
+    SetModified(String, i128),
     Touch(String),
 }
 
@@ -497,7 +498,7 @@ impl Model {
                 None => lookup_missing(&names),
                 Some(n) => {
                     if n.is_storage() {
-                        n.ctime = Some(*t);
+                        n.ctime = Some(ticks_from_unix_ns(*t));
                     }
                     Expect::Ok(Out::Unit)
                 }
@@ -506,7 +507,7 @@ impl Model {
                 None => lookup_missing(&names),
                 Some(n) => {
                     if n.is_storage() {
-                        n.mtime = Some(*t);
+                        n.mtime = Some(ticks_from_unix_ns(*t));
                     }
                     Expect::Ok(Out::Unit)
                 }
